@@ -86,7 +86,7 @@ def check_split(acc, args, quoted, sep, lead, trail, task):
     if got != list(args):
         sym = 'lead' if lead else 'trail' if trail else 'plain'
         acc.violation('split:%s' % sym, 'split_command_line(%r) = %r, expected %r' % (line, got, list(args)),
-                      dict(task=task, line=line, args=list(args)))
+                      dict(task=task, line=line, args=list(args), sym=sym))
         return False
     return True
 
@@ -200,6 +200,7 @@ def run_which(task, acc):
                 elif ef == 'nopath':
                     os.environ['PATH'] = pathstr      # must be ignored: env is given without PATH
                     cases.append(('env-without-PATH', name, {'X': '1'}, None))
+                    cases.append(('env-empty-dict', name, {}, None))
                     if ndirs == 1:
                         cases.append(('defpath-ls', 'ls', {'X': '1'}, 'DEFPATH'))
                 elif ef == 'emptypath':
@@ -370,11 +371,8 @@ def replay(spec):
             got = 'raised %r' % e
         out['got'] = got
         if got != spec['args']:
-            line = spec['line']
-            lead = line[:1].isspace()
-            trail = line[-1:].isspace()
-            out['violation'] = {'key': 'split:%s' % ('lead' if lead else 'trail' if trail else 'plain'),
-                                'msg': 'split_command_line(%r) = %r expected %r' % (line, got, spec['args'])}
+            out['violation'] = {'key': 'split:%s' % spec.get('sym', 'plain'),
+                                'msg': 'split_command_line(%r) = %r expected %r' % (spec['line'], got, spec['args'])}
         return out
     acc = run_task(task)
     for k in sorted(acc.violations):
